@@ -10,6 +10,7 @@ package threading
 
 import (
 	"fmt"
+	"runtime"
 	"strconv"
 	"sync"
 	"testing"
@@ -20,13 +21,18 @@ import (
 	"github.com/zeromicro/go-zero/internal/verifh"
 )
 
-func c05GenThreading(r *verifh.Rng) []verifh.Section {
+func c05GenThreadingSeq(r *verifh.Rng) []verifh.Section {
 	var secs []verifh.Section
-	for i := 0; i < verifh.Scale(8, 300); i++ {
+	for i := 0; i < verifh.Scale(20, 300); i++ {
 		n := c5.PickN(r)
 		secs = append(secs, verifh.Section{Cfg: fmt.Sprintf("kind=runner mode=seq n=%d", n),
 			Ops: c5.SeqOps(r, n, r.Range(10, 50), true, c5.FinishOp(r))})
 	}
+	return secs
+}
+
+func c05GenThreadingConc(r *verifh.Rng) []verifh.Section {
+	var secs []verifh.Section
 	for i := 0; i < verifh.Scale(5, 150); i++ {
 		n := r.Pick(1, 2, 3, r.Range(1, 8))
 		g := r.Pick(1, 2, n+1, r.Range(2, 8))
@@ -46,6 +52,7 @@ type c05Gate struct {
 func c05StartRunner(cfg verifh.Cfg) (func(op []string) string, func()) {
 	n := cfg.Int("n", 1)
 	rp := NewTaskRunner(n)
+	base := runtime.NumGoroutine()
 	var running []*c05Gate // tasks admitted and blocked on their gate, oldest first
 	newTask := func() (*c05Gate, func()) {
 		g := &c05Gate{ch: make(chan bool), done: make(chan struct{})}
@@ -65,11 +72,22 @@ func c05StartRunner(cfg verifh.Cfg) (func(op []string) string, func()) {
 		before := len(rp.limitChan)
 		g.ch <- pan
 		<-g.done
-		// the slot is released by the deferred clean-up after the task body ended
-		if !c5.WaitUntil(5*time.Second, func() bool { return len(rp.limitChan) < before }) {
-			return "leaked"
+		// the slot is released by the deferred clean-up after the task body ended; the goroutine is gone
+		// right after it — a goroutine count back at the expected level with the slot still taken is a leak
+		// seen without waiting out a timeout
+		c5.WaitUntil(5*time.Second, func() bool {
+			return len(rp.limitChan) < before || runtime.NumGoroutine() <= base+len(running)
+		})
+		if len(rp.limitChan) < before {
+			return "ok"
 		}
-		return "ok"
+		for i := 0; i < 50 && len(rp.limitChan) >= before; i++ {
+			runtime.Gosched()
+		}
+		if len(rp.limitChan) < before {
+			return "ok"
+		}
+		return "leaked"
 	}
 	probe := func() int {
 		k := 0
@@ -186,9 +204,12 @@ func c05StartRunner(cfg verifh.Cfg) (func(op []string) string, func()) {
 	}
 }
 
-func TestVerifC05Threading(t *testing.T) {
+func TestVerifC05ThreadingSeq(t *testing.T) { c05RunThreading(t, verifh.Sections(c05GenThreadingSeq)) }
+
+func TestVerifC05ThreadingConc(t *testing.T) { c05RunThreading(t, verifh.Sections(c05GenThreadingConc)) }
+
+func c05RunThreading(t *testing.T, secs []verifh.Section) {
 	logx.Disable()
-	secs := verifh.Sections(c05GenThreading)
 	verifh.Run(t, secs, func(cfg verifh.Cfg) (func(op []string) string, func()) {
 		if cfg.Str("kind", "") == "runner" {
 			return c05StartRunner(cfg)
